@@ -140,6 +140,9 @@ def save(img, filename, dtype_from='data'):
     # make new image
     ni_img = nipy2nifti(img, data_dtype = io_dtype)
     ftype = _type_from_filename(filename)
+    if ftype == 'nifti1pair':
+        # a single-file image object refuses a header / data pair filename
+        ni_img = nib.Nifti1Pair.from_image(ni_img)
     if ftype.startswith('nifti1'):
         ni_img.to_filename(filename)
     elif ftype == 'analyze':
